@@ -590,6 +590,15 @@ func streamHTTP(o opts) {
 				case 5:
 					acts = append(acts, hact{kind: 3, k: "X-Custom"})
 				}
+				// an origin handler that touches the marker header itself (a gateway passing on an upstream X-Cache,
+				// or a handler wiping it): the middleware's own MISS / HIT markers win
+				if method == "GET" && r.Intn(12) == 0 {
+					if r.Intn(3) == 0 {
+						acts = append(acts, hact{kind: 3, k: "X-Cache"})
+					} else {
+						acts = append(acts, hact{kind: 1, k: "X-Cache", v: pick(r, []string{"HIT from edge-7", "v"})})
+					}
+				}
 			}
 			streamed := false
 			shape := r.Intn(12)
